@@ -11,6 +11,7 @@ def dispatch (line : String) : String :=
   | "privacy" :: args => Privacy.handle args
   | "lineno" :: args => Lineno.handle args
   | "pyval" :: args => Pyval.handle args
+  | "names" :: args => Names.handle args
   | _ => "bad-op"
 
 partial def loop (h : IO.FS.Stream) (out : IO.FS.Stream) : IO Unit := do
